@@ -8,6 +8,23 @@ Statements only; proofs go through `Lemmas/ExchangeStream.lean`.
 Everything user supplied is universally quantified: `P : Params ..` is an arbitrary parser /
 error conversion / **stateful** transformer, `de : De ι` an arbitrary deserialiser, `sem : FloatSem`
 an arbitrary decimal → binary64 rounding. Scripts, buffers and histories are arbitrary lists.
+
+Reading guide (after the review of the sub-check theorems, `audit/sub/report_A.md`):
+* Results: `polls_refine_spec` (+ `outputs_complete`, `emitted_plus_future`), `transformer_threaded`,
+  `poll_is_lazy`, `skipped_iff_housekeeping` + `ok_only_from_data`, the `*_panics_iff` theorems,
+  `parse_u64_ok_iff`, `f64_from_str_numerals` + `f64_s_value` / `f64_ms_value`,
+  `exchange_stream_run_is_a_c12_connection` (section E).
+* Statements about the specification trace only (`ends_iff`, `after_end_always_none`,
+  `pending_count`, `pending_after_script_iff`, `script_extension_stable`, `buffered_events_first`,
+  the `specOut` laws): they hold of `poll_next` through `polls_refine_spec` / `outputs_complete`.
+  "Stays ended" rests on the scripted inner stream (real `poll_next` re-polls it after `None`).
+* Definitional / bookkeeping (proved by `rfl`, or true of every list — they pin conventions, they
+  are not results): `pending_leaves_state`, `exhausted_is_fixed`, `datetime_from_duration`,
+  `close_is_terminated`, `transport_error_passed`, `se_element_is_singleton`, `f64_words_accepted`,
+  `f64_from_str_rejects`, `from_millis_total`, `exchange_stream_is_a_c12_connection`.
+* `specParse` / `specDisconnected` are a second table by the same hand as `parse` /
+  `isWebsocketDisconnected`: `parse_refines_spec`, `spec_silent_iff`, `disconnected_refines_spec`
+  compare the two.
 -/
 namespace BarterModel.Props.C12W
 open BarterModel.ExStream
@@ -89,7 +106,11 @@ theorem ends_iff (P : Params μ ε ι σ ο τ) (s : St μ σ ο τ) (k : Nat) :
   · have hk' : (specPolls P s).length ≤ k := Nat.le_of_not_lt hk
     simp [exhausted, hk']
 
-/-- After the end nothing else ever comes (as long as the inner stream keeps reporting its end). -/
+/-- After the end nothing else ever comes — as long as the inner stream keeps reporting its end:
+the scripted inner stream of the model does; the real `poll_next` re-polls the inner stream after
+`None`, so an un-fused inner stream that yields again would be passed through (outside the model).
+A statement about the specification trace (`specPollAt`); it holds of `polls` through
+`polls_refine_spec`. -/
 theorem after_end_always_none (P : Params μ ε ι σ ο τ) (s : St μ σ ο τ) (k j : Nat)
     (h : specPollAt P s k = .ready none) (hj : k ≤ j) : specPollAt P s j = .ready none := by
   rw [ends_iff] at h ⊢
@@ -400,7 +421,8 @@ theorem from_millis_total (ms : Nat) : (Duration.fromMillis ms).totalNanos = ms 
   fromMillis_total ms
 
 /-- `datetime_utc_from_epoch_duration`: the instant `secs·10⁹ + nanos` ns after the epoch; it panics
-exactly when the seconds exceed chrono's last representable second. -/
+exactly when the seconds exceed chrono's last representable second. (Definitional: this is the
+`if` of the model's definition unfolded; the tie to the code is the correspondence — `dur` ops.) -/
 theorem datetime_from_duration (d : Duration) :
     datetimeUtcFromEpochDuration d =
       if d.secs ≤ maxChronoSecs then some (d.secs * nanosPerSec + d.nanos) else none := rfl
@@ -837,14 +859,200 @@ theorem f64_ms_huge_panics (sem : FloatSem) (cs : List Char) (q : Rat)
   simp only [deStrF64EpochMs, deStr, hp, f64AsU64, if_neg hn, hmin]
   decide
 
-/-- **Link to C12**: whatever an `ExchangeStream` does, the items it hands out and whether it ends
-form one connection script `Conn.initOk elems hang` of the reconnecting-stream model
-(`Model/Streams.lean`), whose theorems (C12) quantify over all such scripts. -/
+/-- Bookkeeping only (kept because it is true and was audited; NOT the link to C12): the list
+`future P s` with the flag `s.stream.ended` has the shape of a C12 connection script. As the review
+of the sub-check theorems observed, the same equation holds for EVERY list and EVERY flag
+(`any_list_is_a_c12_connection` below), neither `polls` nor `pollNext` occurs in it, so it says
+nothing about what an `ExchangeStream` does. The link is
+`exchange_stream_run_is_a_c12_connection` (section E). -/
 theorem exchange_stream_is_a_c12_connection (P : Params μ ε ι σ ο τ) (s : St μ σ ο τ)
     (val : ο → Nat) (errId : τ → Nat) (terminal : τ → Bool) :
     Streams.connStream ((future P s).map (toElem val errId terminal)) (!s.stream.ended) =
       ⟨(future P s).map (fun o => .yield (toRes val errId terminal o)), s.stream.ended⟩ := by
   simp [Streams.connStream, elemSteps_map_toElem]
+
+/-! ## E. After the review of the sub-check theorems: the link to C12 restated over runs; the
+full panic sets of the `f64` helpers; numerals with very large exponents -/
+
+/-- The shape equation of `exchange_stream_is_a_c12_connection` for an arbitrary list and flag:
+recorded so that nobody mistakes that theorem for a statement about `ExchangeStream`. -/
+theorem any_list_is_a_c12_connection (l : List (Except τ ο)) (b : Bool)
+    (val : ο → Nat) (errId : τ → Nat) (terminal : τ → Bool) :
+    Streams.connStream (l.map (toElem val errId terminal)) (!b) =
+      ⟨l.map (fun o => .yield (toRes val errId terminal o)), b⟩ := by
+  simp [Streams.connStream, elemSteps_map_toElem]
+
+/-- What a consumer observes as the end of the connection is the inner stream's end: once a run
+(`polls`) is longer than the determined part, its last poll is `Ready(None)` iff the inner stream
+ended, `Pending` iff it is still open (= `hang` of the C12 connection). -/
+theorem run_ends_iff_inner_ended (P : Params μ ε ι σ ο τ) (s : St μ σ ο τ) (n : Nat)
+    (hn : (specPolls P s).length < n) :
+    endedBy (polls P n s) = s.stream.ended := by
+  rw [polls_eq_prefix_then_exhausted, List.take_of_length_le (Nat.le_of_lt hn)]
+  obtain ⟨k, hk⟩ : ∃ k, n - (specPolls P s).length = k + 1 := ⟨n - (specPolls P s).length - 1, by omega⟩
+  rw [hk, endedBy_exhausted]
+
+/-- **Link to C12.** Take any parser, error conversion, stateful transformer, initial buffer and
+inner-stream script, and run the `ExchangeStream` (`polls`, i.e. `pollNext` repeated) for more
+polls than the script determines. The `Ready(Some _)` outputs of that run in order
+(`itemsOf`: the `Pending`s are dropped — a `Pending` carries no content at the level of C12,
+whose connection scripts have items, errors and a final hang/end only), together with whether its
+last poll was `Ready(None)` (`endedBy`), ARE the inner stream `connStream elems hang` of one C12
+connection `Conn.initOk elems hang` (`Model/Streams.lean`): its steps are exactly every buffered
+item and every output of every message, each once and in order, and it ends iff the socket-level
+stream ended. C12's theorems quantify over all such scripts. -/
+theorem exchange_stream_run_is_a_c12_connection (P : Params μ ε ι σ ο τ) (s : St μ σ ο τ) (n : Nat)
+    (hn : (specPolls P s).length < n)
+    (val : ο → Nat) (errId : τ → Nat) (terminal : τ → Bool) :
+    Streams.connStream ((itemsOf (polls P n s)).map (toElem val errId terminal)) (!endedBy (polls P n s)) =
+      ⟨(s.buffer ++ specOut P s.transformer (messages s.stream.items)).map
+          (fun o => .yield (toRes val errId terminal o)), s.stream.ended⟩ := by
+  rw [run_ends_iff_inner_ended P s n hn, outputs_complete P s n (Nat.le_of_lt hn)]
+  simp only [Streams.connStream, elemSteps_map_toElem, Bool.not_not]
+
+/-- A run that is still going has handed C12 a prefix of that connection's elements. -/
+theorem unfinished_run_is_a_prefix_of_the_c12_connection (P : Params μ ε ι σ ο τ) (s : St μ σ ο τ) (n : Nat)
+    (val : ο → Nat) (errId : τ → Nat) (terminal : τ → Bool) :
+    (itemsOf (polls P n s)).map (toElem val errId terminal) <+:
+      (s.buffer ++ specOut P s.transformer (messages s.stream.items)).map (toElem val errId terminal) := by
+  obtain ⟨t, ht⟩ := outputs_prefix P s n
+  exact ⟨t.map (toElem val errId terminal), by rw [← List.map_append, ht]⟩
+
+/-- **`Pending`s carry no content at the C12 level**: two inner streams with the same messages,
+pending at different moments (any number of `Pending`s anywhere), run to exhaustion, present the
+same connection to C12. -/
+theorem pendings_carry_nothing_to_c12 (P : Params μ ε ι σ ο τ) (t : σ) (b : List (Except τ ο))
+    (items items' : List (Inner μ)) (ended : Bool) (n n' : Nat)
+    (hm : messages items = messages items')
+    (hn : (specPolls P ⟨⟨items, ended⟩, t, b⟩).length < n)
+    (hn' : (specPolls P ⟨⟨items', ended⟩, t, b⟩).length < n')
+    (val : ο → Nat) (errId : τ → Nat) (terminal : τ → Bool) :
+    Streams.connStream ((itemsOf (polls P n ⟨⟨items, ended⟩, t, b⟩)).map (toElem val errId terminal))
+        (!endedBy (polls P n ⟨⟨items, ended⟩, t, b⟩)) =
+      Streams.connStream ((itemsOf (polls P n' ⟨⟨items', ended⟩, t, b⟩)).map (toElem val errId terminal))
+        (!endedBy (polls P n' ⟨⟨items', ended⟩, t, b⟩)) := by
+  rw [exchange_stream_run_is_a_c12_connection P _ n hn, exchange_stream_run_is_a_c12_connection P _ n' hn']
+  simp only [hm]
+
+/-- The band between chrono's last second and `2⁶⁴` s (in no theorem before the review): the
+seconds helper **panics** there too — the negation of `f64_s_value`'s hypothesis `hr`. -/
+theorem f64_s_panics_beyond_chrono (sem : FloatSem) (cs : List Char) (q : Rat)
+    (hp : parseF64Str sem cs = .ok (.finite q)) (h0 : 0 ≤ q) (h1 : q < (2 : Rat) ^ 64)
+    (hr : ¬ (roundHalfEven (q * nanosPerSec)).toNat / nanosPerSec ≤ maxChronoSecs) :
+    deStrF64EpochS sem (.str cs false) = .panic := by
+  have hn : ¬ q < 0 := by grind
+  have h2 : ¬ (2 : Rat) ^ 64 ≤ q := by grind
+  simp only [deStrF64EpochS, deStr, hp, durationFromSecsF64, if_neg hn, if_neg h2]
+  rw [panic_of_datetime _ hr]
+
+/-- ... and so does the milliseconds helper (the negation of `f64_ms_value`'s `hr`). -/
+theorem f64_ms_panics_beyond_chrono (sem : FloatSem) (cs : List Char) (q : Rat)
+    (hp : parseF64Str sem cs = .ok (.finite q)) (h0 : 0 ≤ q) (h1 : q < (2 : Rat) ^ 64)
+    (hr : ¬ q.floor.toNat / 1000 ≤ maxChronoSecs) :
+    deStrF64EpochMs sem (.str cs false) = .panic := by
+  simp only [deStrF64EpochMs, deStr, hp, f64_as_u64_in_range q h0 h1]
+  rw [panic_of_datetime _ (by simpa [Duration.fromMillis] using hr)]
+
+/-- **The panic set of `de_str_f64_epoch_s_as_datetime_utc`, exactly**: on a string that
+`f64::from_str` reads as `x`, it panics iff `x` is `NaN`, infinite, negative, `≥ 2⁶⁴`, or rounds
+to a nanosecond count beyond chrono's last second. The last disjunct is literally the negation of
+the hypothesis `hr` of `f64_s_value`; the first four make `h0` / `h1` fail. -/
+theorem f64_s_panics_iff (sem : FloatSem) (cs : List Char) (x : F64) (hp : parseF64Str sem cs = .ok x) :
+    deStrF64EpochS sem (.str cs false) = .panic ↔
+      (x = .nan ∨ (∃ n, x = .inf n) ∨
+        ∃ q, x = .finite q ∧ (q < 0 ∨ (2 : Rat) ^ 64 ≤ q ∨
+          ¬ (roundHalfEven (q * nanosPerSec)).toNat / nanosPerSec ≤ maxChronoSecs)) := by
+  constructor
+  · intro h
+    cases x with
+    | nan => exact Or.inl rfl
+    | inf n => exact Or.inr (Or.inl ⟨n, rfl⟩)
+    | finite q =>
+      refine Or.inr (Or.inr ⟨q, rfl, ?_⟩)
+      by_cases hq : q < 0
+      · exact Or.inl hq
+      · by_cases h2 : (2 : Rat) ^ 64 ≤ q
+        · exact Or.inr (Or.inl h2)
+        · refine Or.inr (Or.inr ?_)
+          intro hr
+          have h0 : 0 ≤ q := by grind
+          have h1 : q < (2 : Rat) ^ 64 := by grind
+          rw [f64_s_value sem cs q hp h0 h1 hr] at h
+          cases h
+  · rintro (rfl | ⟨n, rfl⟩ | ⟨q, rfl, hq | hq | hq⟩)
+    · exact f64_s_panics sem cs _ hp (Or.inl rfl)
+    · exact f64_s_panics sem cs _ hp (Or.inr (Or.inl ⟨n, rfl⟩))
+    · exact f64_s_panics sem cs _ hp (Or.inr (Or.inr ⟨q, rfl, Or.inl hq⟩))
+    · exact f64_s_panics sem cs _ hp (Or.inr (Or.inr ⟨q, rfl, Or.inr hq⟩))
+    · by_cases hneg : q < 0
+      · exact f64_s_panics sem cs _ hp (Or.inr (Or.inr ⟨q, rfl, Or.inl hneg⟩))
+      · by_cases h2 : (2 : Rat) ^ 64 ≤ q
+        · exact f64_s_panics sem cs _ hp (Or.inr (Or.inr ⟨q, rfl, Or.inr h2⟩))
+        · exact f64_s_panics_beyond_chrono sem cs q hp (by grind) (by grind) hq
+
+/-- **The panic set of `de_str_f64_epoch_ms_as_datetime_utc`, exactly**: `+inf`, or a finite
+non-negative value that is `≥ 2⁶⁴` ms or whose whole milliseconds lie beyond chrono's last second
+(the negation of `f64_ms_value`'s `hr`). Negative values, `NaN` and `-inf` do NOT panic: they are
+the epoch (`f64_ms_negative_is_epoch`, `f64_ms_nan_is_epoch`, `f64_ms_inf`). -/
+theorem f64_ms_panics_iff (sem : FloatSem) (cs : List Char) (x : F64) (hp : parseF64Str sem cs = .ok x) :
+    deStrF64EpochMs sem (.str cs false) = .panic ↔
+      (x = .inf false ∨
+        ∃ q, x = .finite q ∧ 0 ≤ q ∧ ((2 : Rat) ^ 64 ≤ q ∨ ¬ q.floor.toNat / 1000 ≤ maxChronoSecs)) := by
+  constructor
+  · intro h
+    cases x with
+    | nan => rw [f64_ms_nan_is_epoch sem cs hp] at h; cases h
+    | inf n =>
+      cases n with
+      | false => exact Or.inl rfl
+      | true => rw [f64_ms_inf sem cs true hp] at h; cases h
+    | finite q =>
+      right
+      by_cases hq : q < 0
+      · rw [f64_ms_negative_is_epoch sem cs q hp hq] at h; cases h
+      · have h0 : 0 ≤ q := by grind
+        refine ⟨q, rfl, h0, ?_⟩
+        by_cases h2 : (2 : Rat) ^ 64 ≤ q
+        · exact Or.inl h2
+        · right
+          intro hr
+          rw [f64_ms_value sem cs q hp h0 (by grind) hr] at h
+          cases h
+  · rintro (rfl | ⟨q, rfl, h0, hq | hq⟩)
+    · simpa using f64_ms_inf sem cs false hp
+    · exact f64_ms_huge_panics sem cs q hp hq
+    · by_cases h2 : (2 : Rat) ^ 64 ≤ q
+      · exact f64_ms_huge_panics sem cs q hp h2
+      · exact f64_ms_panics_beyond_chrono sem cs q hp h0 (by grind) hq
+
+/-- **A zero mantissa is zero whatever the exponent** (`"0e99999999999"`, `"0.000e-5"`,
+`"-0e99999999999"`): `f64::from_str` reads the rounding of `0`, for every rounding — so the
+milliseconds helper gives the epoch and the seconds helper too (no panic: `-0.0` is not negative). -/
+theorem f64_zero_mantissa_any_exponent (sem : FloatSem) (cs ds : List Char) (e : Int)
+    (h : parseNumberParts cs = some (ds, e)) (h0 : natOfDigits ds = 0) :
+    parseF64Str sem cs = .ok (sem.round 0) ∧ parseF64Str sem ('-' :: cs) = .ok (sem.round 0) := by
+  have hz := parseNumber_zero_mantissa cs ds e h h0
+  refine ⟨parseF64Str_number sem _ _ hz, ?_⟩
+  have := parseF64Str_negative sem _ _ hz
+  rwa [show (-(0 : Rat)) = 0 by decide +kernel] at this
+
+/-- `parseNumber` is `mantissa · 10^exponent` of `parseNumberParts` (same grammar, no power
+computed), and the evaluation used by the driver (`parseF64Fast`) IS the model's `parseF64Str`
+for every rounding, on every string whose numeral has a zero mantissa or a decimal exponent `E`
+with `E < 400` and `-400 < E + #digits`. On the remaining strings (`"1e99999999999"`,
+`"1e-99999999999"`) `parseF64Fast` answers `±inf` / `0` without evaluating `10^E`; that this is
+what the rounding gives is a property of `ieee` (witnesses at the thresholds below), not proved
+for all arguments. -/
+theorem f64_fast_agrees (sem : FloatSem) (cs : List Char)
+    (h : ∀ ds e, parseNumberParts (splitSign cs).2 = some (ds, e) →
+      natOfDigits ds = 0 ∨ (e < 400 ∧ -400 < e + (ds.length : Int))) :
+    parseF64Fast sem cs = parseF64Str sem cs ∧
+    deStrF64EpochMsWith (parseF64Fast sem) (.str cs false) = deStrF64EpochMs sem (.str cs false) ∧
+    deStrF64EpochSWith (parseF64Fast sem) (.str cs false) = deStrF64EpochS sem (.str cs false) := by
+  have := parseF64Fast_eq sem cs h
+  refine ⟨this, ?_, ?_⟩
+  · simp only [deStrF64EpochMsWith, deStrF64EpochMs, deStr, this]
+  · simp only [deStrF64EpochSWith, deStrF64EpochS, deStr, this]
 
 /-! ## Non-vacuity -/
 
@@ -899,6 +1107,30 @@ example : deStrF64EpochS ieee (.str "nan".toList false) = .panic := by decide +k
 example : deStrF64EpochMs ieee (.str "-5".toList false) = .ok 0 := by decide +kernel
 example : deStrF64EpochMs ieee (.str "inf".toList false) = .panic := by decide +kernel
 example : deStrU64EpochMs (.str "8210266876800000".toList false) = .panic := by decide +kernel
+
+/-! The four inputs of the review (panic in code and model, in no theorem before): instances of
+`f64_s_panics_iff` / `f64_ms_panics_iff`; and the last value below the band. -/
+example : deStrF64EpochS ieee (.str "8210266876800".toList false) = .panic := by decide +kernel
+example : deStrF64EpochS ieee (.str "18446744073709551615".toList false) = .panic := by decide +kernel
+example : deStrF64EpochMs ieee (.str "1e19".toList false) = .panic := by decide +kernel
+example : deStrF64EpochMs ieee (.str "8210266876799999.9".toList false) = .panic := by decide +kernel
+example : deStrF64EpochMs ieee (.str "8210266876799999.4".toList false) = .ok 8210266876799999000000 := by
+  decide +kernel
+/-! binary64 at the bound: spacing 1 ms at 8.2e15 and 2⁻¹⁰ s at 8.2e12, the bound itself has an
+even mantissa — so exactly the decimals from half a spacing below the bound upwards round into the
+panic band (what the spec driver's hand-written panic predicate assumes). -/
+example : ieee.round (8210266876800000 - 1 / 2) = .finite 8210266876800000 := by decide +kernel
+example : ieee.round (8210266876800000 - 1 / 2 - 1 / 1000000) = .finite 8210266876799999 := by decide +kernel
+example : ieee.round (8210266876800 - 1 / 2048) = .finite 8210266876800 := by decide +kernel
+example : ieee.round (8210266876800 - 1 / 2048 - 1 / 1000000000) = .finite (8210266876800 - 1 / 1024) := by
+  decide +kernel
+/-! The thresholds of `parseF64Fast`: `ieee` overflows at `10^400` and underflows below `10^-400`. -/
+example : ieee.round (pow10Rat 400) = .inf false := by decide +kernel
+example : ieee.round (-pow10Rat 400) = .inf true := by decide +kernel
+example : ieee.round (pow10Rat (-400)) = .finite 0 := by decide +kernel
+example : (parseF64Fast ieee "1e309".toList).toOption = some (.inf false) ∧
+    (parseF64Str ieee "1e309".toList).toOption = some (.inf false) := by decide +kernel
+example : parseNumberParts "0.00e99999999999".toList = some ("000".toList, 99999999997) := by decide +kernel
 
 end examples
 
